@@ -9,6 +9,7 @@
 // to the place it came from, exactly once, with the size and alignment it was
 // obtained with" is decided by pointer-keyed registries, independent of which
 // internal pointer babylon uses.
+#include "known.h"
 #include <babylon/reusable/allocator.h>
 #include <babylon/reusable/memory_resource.h>
 
@@ -462,10 +463,7 @@ void do_release(Slot& s, bool destroy) {
 // changes owner holds live oversize blocks. Excluded from generation unless VF_ALLOW_KNOWN=1.
 bool allow_known() {
   static int v = -1;
-  if (v < 0) {
-    const char* e = getenv("VF_ALLOW_KNOWN");
-    v = (e && *e && *e != '0') ? 1 : 0;
-  }
+  if (v < 0) v = vf_allow_known("f6") ? 1 : 0;
   return v == 1;
 }
 bool has_oversize(int cid) { return cid >= 0 && (g->contents[cid].rec_oversize || g->contents[cid].def_oversize); }
